@@ -26,6 +26,22 @@ type Job struct {
 	LogPath   string            `json:"log_path,omitempty"`
 	Scratch   string            `json:"scratch,omitempty"`
 	Args      map[string]string `json:"args,omitempty"`
+	// Breadcrumb names a file into which the worker keeps writing the index of
+	// the run it is executing, so that a crash of the code under test (a Go
+	// panic kills the whole process) can be traced back to its run.
+	Breadcrumb string `json:"breadcrumb,omitempty"`
+	// StartRun makes a search start at that run index (crash triage).
+	StartRun int64 `json:"start_run,omitempty"`
+}
+
+// Regenerate is the case of a replay file that names a generated run instead
+// of listing its actions: the run is produced again from its seed.
+type Regenerate struct {
+	Seed    uint64 `json:"seed"`
+	Worker  int    `json:"worker"`
+	Workers int    `json:"workers"`
+	Run     int64  `json:"run"`
+	Tier    string `json:"tier"`
 }
 
 // Violation is one property violation found (and minimised) by a worker.
